@@ -84,7 +84,31 @@ def solve_subst(decs):
 
 
 def apply_sub(p, sub):
+    if not sub:
+        return p
+    # fast path: variables replaced by constants (typically 0): filter / scale monomials in one pass
+    consts = {v: pv.t.get((), 0) for v, pv in sub.items() if pv.degree() == 0}
+    if consts:
+        r = {}
+        for m, c in p.t.items():
+            keep = []
+            cc = c
+            for v, e in m:
+                if v in consts:
+                    cc = cc * pow(consts[v], e, Q) % Q
+                else:
+                    keep.append((v, e))
+            if cc:
+                k = tuple(keep)
+                nv = (r.get(k, 0) + cc) % Q
+                if nv:
+                    r[k] = nv
+                else:
+                    r.pop(k, None)
+        p = Poly(r)
     for v, pv in sub.items():
+        if v in consts:
+            continue
         if v in p.vars():
             p = p.subst(v, pv)
     return p
@@ -355,17 +379,30 @@ def check_inverse(ck, leaves, n, task, fnname):
     quantity is the field norm of x down to F_q (zero only for x = 0)"""
     mk = {2: t2, 4: t4f, 12: t12}[n]
     X = mk('x')
+    memo = {}
     for li, lf in enumerate(leaves):
         nm = 'A-%s#%d' % (task, li)
         if lf.panic:
             ck.fail(nm, 'no panic leaf', lf.panic, [fnname])
             continue
+        # leaves that differ only in decisions not affecting the result share one expression DAG: decide it once
+        sig = (tuple(json.dumps(lf.dag.n[i]) for i in lf.out), tuple(sorted(str(d_[:3]) for d_ in lf.pc if d_[3])))
+        okey = tuple(lf.out)
         outs = lf.outs()
         flag = outs[0]
         if flag == 1:
+            mkey = tuple(str(sorted(o_.t.items())[:40]) + str(len(o_.t)) for o_ in outs[1:1 + n])
+            if mkey in memo and not [d_ for d_ in lf.decisions() if d_[0] == 'eq' and d_[2]]:
+                prev = memo[mkey]
+                o = ck.ok(nm, '%s: x * inverse(x) = 1 for every non-zero x' % task, 'same result expressions as %s (decided there): %s' % (prev.name, prev.detail[:120]), [fnname])
+                o.status = prev.status if prev.status != 'violated-unreplayed' else 'violated-unreplayed'
+                o.replay = getattr(prev, 'replay', None)
+                continue
             I = {2: from_fq2, 4: from_fq4, 12: from_fq12}[n](outs[1:1 + n])
             d = (X * I - 1)
-            ck.identity(nm, '%s: x * inverse(x) = 1 for every non-zero x' % task, lf, list(d.c), [fnname], replay=dict(kind='inverse', task=task, n=n))
+            o = ck.identity(nm, '%s: x * inverse(x) = 1 for every non-zero x' % task, lf, list(d.c), [fnname], replay=dict(kind='inverse', task=task, n=n))
+            if not [d_ for d_ in lf.decisions() if d_[0] == 'eq' and d_[2]]:
+                memo[mkey] = o
         else:
             # None leaf: the last true decision must be "N == 0" with N the norm of x to F_q (up to sign)
             decs = [d for d in lf.decisions() if d[0] == 'eq' and d[2]]
@@ -392,6 +429,14 @@ def norm_to_fq(X, n):
         return r.c[0]
     if n == 4:
         n2 = X * X.conj(3)  # in F_q2
+        r = n2 * n2.conj(6)
+        return r.c[0]
+    if n == 12:
+        # norm F_q12 -> F_q4 = x * x^(q^4) * x^(q^8) (the conjugates over F_q4), then down to F_q as above
+        n4 = X * frobenius(X, 4) * frobenius(X, 8)
+        if not in_subring(n4, 4):
+            return None
+        n2 = n4 * n4.conj(3)
         r = n2 * n2.conj(6)
         return r.c[0]
     return None
